@@ -86,6 +86,17 @@ def run(ctx, rep):
     # an operand the folder drops is a statement's worth of output / a failure that never happens (`probe() || true`)
     from props import C15 as _c15
     _c15.fold_keeps_operands(F, rep, rule="C01.fold-keeps-operands")
+    # `x + f()` reads x before f runs: the operands of the binary operators are laid down left to right (C15's clause; a program of assignments, calls and
+    # expressions prints something else otherwise)
+    from core import Report as _Report
+    tmp = _Report("C15", rep.tier)
+    _c15.run(ctx, tmp)
+    k_ = 0
+    for o in tmp.obligations:
+        if o["key"].startswith("C15.order|binop|") or o["key"].startswith("C15.parked|"):
+            k_ += 1
+            rep.ob("C01.operand-order", o["instance"], o["status"], o["detail"], o["where"], key=o["key"].replace("C15.", "C01.operand-order|", 1), fn=o.get("fn"))
+    rep.floor("C01.operand-order clauses", k_, 30)
 
 
 
